@@ -159,8 +159,8 @@ impl Prop for Commands {
     }
     fn cases(tier: Tier) -> u32 {
         match tier {
-            Tier::Quick => 30_000,
-            Tier::Thorough => 2_000_000,
+            Tier::Quick => 200_000,
+            Tier::Thorough => 8_000_000,
         }
     }
     fn floors() -> Vec<(&'static str, u32)> {
@@ -319,6 +319,9 @@ pub struct OutcomeCase {
     pub fault: FaultKind,
     /// the file reader aborts at `opened` (1) / at the first block (2) / never (0)
     pub reader_abort: u8,
+    /// 0 = nothing else; k+1 = a second request of kind k is submitted right behind the first and waits in the queue
+    #[serde(default)]
+    pub queued: u8,
 }
 
 pub const KINDS: [(&str, u8); 12] = [
@@ -404,12 +407,12 @@ impl Prop for Outcomes {
     const ID: &'static str = "C16";
     const NAME: &'static str = "outcomes";
     fn rule() -> &'static str {
-        "every user request kind (read, command SBO / direct, time sync LAN / non-LAN / direct write, cold and warm restart, dead-band write, generic empty-response request, link status check, file read with a FileReader that continues or aborts) x fault point: after step k of its protocol the reply is lost, the connection is dropped, the channel is disabled, or the association is removed (or no fault at all, the harness answering every step faithfully); oracle: the user future resolves exactly once - Ok iff no fault - and the FileReader receives exactly one terminal callback, within (steps + 1) response timeouts of virtual time; non-trivial = a fault after step >= 1 of a multi-step request, or any fault"
+        "every user request kind (read, command SBO / direct, time sync LAN / non-LAN / direct write, cold and warm restart, dead-band write, generic empty-response request, link status check, file read with a FileReader that continues or aborts) x fault point: after step k of its protocol the reply is lost, the connection is dropped, the channel is disabled, or the association is removed (or no fault at all, the harness answering every step faithfully), optionally with a second request of any kind waiting in the queue behind it; oracle: the user future resolves exactly once - Ok iff no fault - and the FileReader receives exactly one terminal callback, within (steps + 1) response timeouts of virtual time; non-trivial = a fault after step >= 1 of a multi-step request, or any fault"
     }
     fn cases(tier: Tier) -> u32 {
         match tier {
-            Tier::Quick => 12_000,
-            Tier::Thorough => 600_000,
+            Tier::Quick => 150_000,
+            Tier::Thorough => 6_000_000,
         }
     }
     fn strategy(_tier: Tier) -> BoxedStrategy<OutcomeCase> {
@@ -418,8 +421,9 @@ impl Prop for Outcomes {
             0u8..4,
             prop_oneof![2 => Just(FaultKind::ReplyLost), 2 => Just(FaultKind::Disconnect), 2 => Just(FaultKind::Disable), 2 => Just(FaultKind::RemoveAssociation), 1 => Just(FaultKind::None)],
             prop_oneof![4 => Just(0u8), 1 => Just(1u8), 1 => Just(2u8)],
+            prop_oneof![2 => Just(0u8), 1 => 1u8..=KINDS.len() as u8],
         )
-            .prop_map(|(kind, after_step, fault, reader_abort)| OutcomeCase { kind, after_step, fault, reader_abort })
+            .prop_map(|(kind, after_step, fault, reader_abort, queued)| OutcomeCase { kind, after_step, fault, reader_abort, queued })
             .boxed()
     }
     fn run(case: &OutcomeCase) -> CaseOut {
@@ -435,11 +439,26 @@ async fn run_outcome(case: &OutcomeCase) -> CaseOut {
     let mut rig = MasterRig::start(true, [0; 4], 2048).await;
     rig.add_association(OUT, assoc_config(TIMEOUT), Some(1_600_000_000_000)).await;
     rig.connect().await;
-    let mut h = rig.assocs[&OUT].handle.clone();
     let file_log = FileLog(Default::default(), if name == "read_file" { case.reader_abort } else { 0 });
-    let fl = file_log.clone();
     let t0 = rig.now_ms();
-    let pending = match name {
+    let pending = submit_kind(&rig, name, file_log.clone());
+    // a second request waiting in the queue behind the first
+    let second = if case.queued > 0 {
+        let (n2, s2) = KINDS[(case.queued as usize - 1) % KINDS.len()];
+        out.label("second_request_queued");
+        let log2 = FileLog(Default::default(), 0);
+        Some((n2, s2, submit_kind(&rig, n2, log2.clone()), log2))
+    } else {
+        None
+    };
+    rig.settle().await;
+    judge_outcomes(case, &mut out, rig, name, steps, pending, file_log, second, t0).await;
+    out
+}
+
+fn submit_kind(rig: &MasterRig, name: &'static str, fl: FileLog) -> Pending {
+    let mut h = rig.assocs[&OUT].handle.clone();
+    match name {
         "read" => rig.submit(name, async move { h.read(ReadRequest::class_scan(Classes::class0())).await.map_err(|e| format!("{:?}", e)) }),
         "command_sbo" => rig.submit(name, async move {
             h.operate(CommandMode::SelectBeforeOperate, CommandBuilder::single_header_u8(Group12Var1::from_code(ControlCode::from_op_type(OpType::LatchOn)), 3u8)).await.map_err(|e| format!("{:?}", e))
@@ -460,8 +479,11 @@ async fn run_outcome(case: &OutcomeCase) -> CaseOut {
         _ => rig.submit(name, async move {
             h.read_file("a.txt", FileReadConfig::default(), Box::new(fl), None).await.map_err(|e| format!("{:?}", e))
         }),
-    };
-    rig.settle().await;
+    }
+}
+
+#[allow(clippy::too_many_arguments)]
+async fn judge_outcomes(case: &OutcomeCase, out: &mut CaseOut, mut rig: MasterRig, name: &'static str, steps: u8, pending: Pending, file_log: FileLog, second: Option<(&'static str, u8, Pending, FileLog)>, t0: u64) {
     let fault_after = if case.fault == FaultKind::None { 99 } else { case.after_step.min(steps - if case.fault == FaultKind::ReplyLost { 1 } else { 0 }) };
     if case.fault != FaultKind::None {
         out.nontrivial = true;
@@ -471,10 +493,12 @@ async fn run_outcome(case: &OutcomeCase) -> CaseOut {
     }
     let mut step = 0u8;
     let mut faulted = false;
+    let mut second_done_before_fault = false;
     let mut expect_ok = true;
-    for _round in 0..8 {
+    for _round in 0..16 {
         if step == fault_after && !faulted {
             faulted = true;
+            second_done_before_fault = second.as_ref().map(|s| !s.2.outcomes().is_empty()).unwrap_or(false);
             match case.fault {
                 FaultKind::ReplyLost => {
                     // swallow the request that is on the wire now and never answer it
@@ -533,15 +557,38 @@ async fn run_outcome(case: &OutcomeCase) -> CaseOut {
         step += 1;
         rig.settle().await;
     }
-    // every outcome is due within (steps + 1) response timeouts
+    // every outcome is due within (steps + 1) response timeouts; the queued request within as many more as it has steps
     let deadline = (steps as u64 + 1) * TIMEOUT;
+    let deadline2 = deadline + second.as_ref().map(|s| (s.1 as u64 + 1) * TIMEOUT).unwrap_or(0);
     let mut waited = 0;
-    while waited < deadline + 10 {
-        if !pending.outcomes().is_empty() && (name != "read_file" || file_log.0.lock().unwrap().iter().any(|l| l.starts_with("TERMINAL"))) {
+    while waited < deadline2 + 10 {
+        let done = |p: &Pending, n: &str, l: &FileLog| !p.outcomes().is_empty() && (n != "read_file" || l.0.lock().unwrap().iter().any(|l| l.starts_with("TERMINAL")));
+        if done(&pending, name, &file_log) && second.as_ref().map(|(n2, _, p2, l2)| done(p2, n2, l2)).unwrap_or(true) {
             break;
         }
         rig.advance(50).await;
         waited += 50;
+    }
+    if let Some((n2, s2, p2, l2)) = &second {
+        // the queued request: exactly one outcome (terminal callback), Ok only if nothing went wrong at all
+        let res2 = p2.outcomes();
+        let terminals = l2.0.lock().unwrap().iter().filter(|l| l.starts_with("TERMINAL")).count();
+        if res2.len() != 1 || (*n2 == "read_file" && terminals != 1) {
+            out.fail(
+                Fail::new("queued-request-not-exactly-one-outcome", format!("{n2} queued behind {name}: future resolved {} times, {} terminal file callbacks within {} ms (fault {:?} after step {fault_after} of {steps}): {:?}", res2.len(), terminals, rig.now_ms() - t0, case.fault, res2))
+                    .with_sig(format!("C16 queued outcomes={} terminals={terminals} kind={n2} fault={:?}", res2.len(), case.fault)),
+            );
+        } else if *n2 != "read_file" {
+            let ok2 = res2[0].1.starts_with("Ok");
+            // answered faithfully until the fault (if it was ever reached): Ok iff it was complete by then
+            let want2 = !faulted || second_done_before_fault;
+            if ok2 != want2 {
+                out.fail(Fail::new("wrong-outcome", format!("{n2} queued behind {name}: outcome {} but fault {:?} after step {fault_after} of {steps}", res2[0].1, case.fault)).with_sig(format!("C16 wrong-outcome queued kind={n2} fault={:?} ok={ok2}", case.fault)));
+            }
+            if res2[0].0 - t0 > deadline2 {
+                out.fail(Fail::new("outcome-too-late", format!("{n2} queued behind {name}: outcome after {} ms, bound {} ms ({} + {s2} steps)", res2[0].0 - t0, deadline2, steps)));
+            }
+        }
     }
     let res = pending.outcomes();
     let elapsed = rig.now_ms() - t0;
@@ -582,7 +629,6 @@ async fn run_outcome(case: &OutcomeCase) -> CaseOut {
     if let Some(f) = rig.task_failure.take() {
         out.fail(f);
     }
-    out
 }
 
 pub fn run<C: Codec>(tier: Tier) -> i32 {
